@@ -6,7 +6,8 @@
 \*   pass     what the pass in flight could see at its SyncBegin (clock, Job cache, Pod cache)
 \*   edited   the user set killTimestamp or deleted the Job after it had finished
 \*   udel     the user deleted the Job
-\*   ttlAt    instant of a successful controller-issued Job delete
+\*   ttlAt    instant of a successful controller-issued Job delete; ttlLB the latest finish time, at that instant, among the
+\*            tasks the controller could know of
 \*   listed   tasks ever listed in a Job status that reached the API (what the controller has recorded)
 \*   succRec  indexes whose success was ever recorded in the API status
 \*   doneAt   first instant at which the Job was over in truth (decided or killed, no owned Pod alive)
@@ -20,8 +21,8 @@ EXTENDS Integers, Sequences, FiniteSets, TLC, Json, IOUtils, JobLifeProps
 Trace == ndJsonDeserialize(IOEnv.VERIF_TRACE)
 N == Len(Trace)
 
-VARIABLES l, pass, edited, udel, ttlAt, taint, admTruth, listed, succRec, doneAt, viol
-vars == <<l, pass, edited, udel, ttlAt, taint, admTruth, listed, succRec, doneAt, viol>>
+VARIABLES l, pass, edited, udel, ttlAt, ttlLB, taint, admTruth, listed, succRec, doneAt, viol
+vars == <<l, pass, edited, udel, ttlAt, ttlLB, taint, admTruth, listed, succRec, doneAt, viol>>
 
 NoJob == [ex |-> FALSE, started |-> FALSE, st |-> 0, kill |-> 0, del |-> FALSE, fz |-> FALSE, adm |-> FALSE, phase |-> "", state |-> "",
           conds |-> 0, kind |-> "", result |-> "", fints |-> 0, created |-> 0, running |-> 0, refs |-> <<>>, rv |-> 0]
@@ -65,7 +66,7 @@ StateFails(e, sr) ==
         \cup Fail("C13_DeletionCompletes", C13_DeletionCompletes(s.job, s.pods, NoKube(s)))
         \cup Fail("C13_TTLEventually", C13_TTLEventually(c, s.job, s.now)))
 
-StepFails(e, p, ps, ed, ud, ta, li, da) ==
+StepFails(e, p, ps, ed, ud, ta, tlb, li, da) ==
     LET s == e.st  c == e.cfg  dels == Range(e.dels)
         known == li \cup {[name |-> q.name, idx |-> q.idx, retry |-> q.retry] : q \in Mine(p.pods)} IN
          Fail("C08_Order", C08_OrderStep(c, p.pods, s.pods, known))
@@ -77,9 +78,9 @@ StepFails(e, p, ps, ed, ud, ta, li, da) ==
     \cup Fail("C12_DeleteJustified", C12_DeleteJustifiedStep(c, dels, p.pods, s.pods, ps, s.now, EverOf(s), SuccOf(s)))
     \cup Fail("C12_ForceGate", C12_ForceGateStep(c, Range(e.fdels), p.pods, ps, s.now))
     \cup Fail("C13_Order", C13_OrderStep(p.job, s.job, s.pods))
-    \cup Fail("C13_TTLNotEarly", C13_TTLNotEarlyStep(c, p.job, s.job, ta, ud, da, MaxFin(p, li)))
+    \cup Fail("C13_TTLNotEarly", C13_TTLNotEarlyStep(c, p.job, s.job, ta, ud, da, tlb))
 
-Init == l = 1 /\ pass = NoPass /\ edited = FALSE /\ udel = FALSE /\ ttlAt = 0 /\ taint = "" /\ admTruth = FALSE /\ listed = {} /\ succRec = {} /\ doneAt = 0 /\ viol = {}
+Init == l = 1 /\ pass = NoPass /\ edited = FALSE /\ udel = FALSE /\ ttlAt = 0 /\ ttlLB = 0 /\ taint = "" /\ admTruth = FALSE /\ listed = {} /\ succRec = {} /\ doneAt = 0 /\ viol = {}
 
 Next ==
     /\ l <= N
@@ -94,6 +95,7 @@ Next ==
            ed == IF reset THEN FALSE ELSE edited \/ (e.ev \in {"UserKill", "UserDelete"} /\ p.job.kind = "Finished")
            ud == IF reset THEN FALSE ELSE udel \/ e.ev = "UserDelete"
            ta == IF reset THEN 0 ELSE IF e.ev = "Step" /\ e.op = "delete/jobs" /\ e.err \in {"", "applied-but-error"} /\ ttlAt = 0 THEN s.now ELSE ttlAt
+           tlb == IF reset THEN 0 ELSE IF ta # ttlAt THEN MaxFin(p, listed) ELSE ttlLB
            at == IF reset THEN FALSE
                  ELSE admTruth \/ (e.ev = "Step" /\ e.op = "create/pods" /\ e.err = "AlreadyExists"
                                     /\ \E q \in Range(p.pods) : q.name = e.key /\ ~q.mine)
@@ -103,7 +105,7 @@ Next ==
            over == /\ s.job.ex /\ s.job.started /\ ~\E q \in Mine(s.pods) : Alive(q)
                    /\ (s.job.adm \/ at \/ (s.job.kill # 0 /\ s.job.kill <= s.now) \/ DecidedTruth(e.cfg, s.pods, EverOf(s), SuccOf(s)))
            da == IF reset THEN 0 ELSE IF doneAt = 0 /\ over THEN s.now ELSE doneAt
-           fs == StateFails(e, sr) \cup (IF reset \/ l = 1 THEN {} ELSE StepFails(e, p, ps, ed, ud, ta, listed, da))
+           fs == StateFails(e, sr) \cup (IF reset \/ l = 1 THEN {} ELSE StepFails(e, p, ps, ed, ud, ta, tlb, listed, da))
            \* primary manifestations of the known cache-skew findings taint the rest of the run
            inpass == e.ev \in {"SyncBegin", "Step"}
            \* the pass acted: it issued Pod deletes or a mutating call that took effect
@@ -115,7 +117,7 @@ Next ==
                  ELSE IF inpass /\ ps.stale /\ (fs # {} \/ wrote) THEN "jobcache-stale"
                  ELSE IF inpass /\ ps.skew /\ (fs # {} \/ wrote) THEN "podcache-behind"
                  ELSE ""
-       IN /\ pass' = ps /\ edited' = ed /\ udel' = ud /\ ttlAt' = ta /\ taint' = tn /\ admTruth' = at
+       IN /\ pass' = ps /\ edited' = ed /\ udel' = ud /\ ttlAt' = ta /\ ttlLB' = tlb /\ taint' = tn /\ admTruth' = at
           /\ listed' = li /\ succRec' = sr /\ doneAt' = da
           /\ viol' = viol \cup {[f |-> f, line |-> l, run |-> e.run, ev |-> e.ev, faulted |-> e.faulted,
                                  taint |-> tn, adm |-> at, foreign |-> e.cfg.foreign] : f \in fs}
